@@ -160,6 +160,9 @@ def gen_flat(rng, n=None, *, callbacks=True, p_edge=0.45, max_n=7):
                     if q in ins:
                         q = f"i{j}"
                     ins[q] = [src["name"], rng.choice(ports)]
+                    if rng.random() < 0.25:
+                        # a second wire from the same upstream component (often the same output port)
+                        ins[f"j{j}"] = [src["name"], ins[q][1] if rng.random() < 0.6 else rng.choice(ports)]
         beh = gen_beh(rng, len(ins), callbacks=callbacks)
         comps.append({"name": nm, "kind": "dev", "inputs": ins, "beh": beh})
     # make sure something has a callback so that there are ticks
